@@ -23,6 +23,17 @@ BASE = 'pylatexenc.macrospec._pyltxenc2_argparsers._base'
 
 SHIMS = ('get_token', 'get_latex_nodes', 'get_latex_expression', 'get_latex_braced_group',
          'get_latex_environment', 'get_latex_maybe_optional_arg')
+# constant options of the parser each shim builds, confirmed by reading against the pylatexenc-2 behaviour
+SHIM_FIXED_OPTIONS = {
+    'get_latex_nodes': {},
+    # 2.x returned one node, and skipped white space and comments in front of the expression
+    'get_latex_expression': {'return_full_node_list': False, 'allow_pre_space': True, 'allow_pre_comments': True},
+    # 2.x read the opening brace with get_token(), which skips white space
+    'get_latex_braced_group': {'allow_pre_space': True},
+    'get_latex_environment': {},
+    # documented equivalent: LatexOptionalSquareBracketsParser() as constructed by default
+    'get_latex_maybe_optional_arg': {},
+}
 DEAD_OK = {'keep_inline_math': 'documented no-op since pylatexenc 2'}
 
 
@@ -688,6 +699,84 @@ def run(ctx):
                % (' & '.join(mm_cases[0].cond_src())[-100:] if mm_cases else 'no such path'),
                construct='CallableSpec.__init__: is_math_mode')
 
+    # ---- R16w: the fixed options of the parser a shim builds
+    ctx.rule('R16w', 'the constant options a legacy method passes to the parser it builds (other than values equal to the '
+                     'constructor\'s default) are exactly the reviewed ones that reproduce the pylatexenc-2 behaviour: '
+                     'get_latex_expression return_full_node_list=False, allow_pre_space, allow_pre_comments; '
+                     'get_latex_braced_group allow_pre_space; none for get_latex_nodes, get_latex_environment and '
+                     'get_latex_maybe_optional_arg, whose documented equivalent is the default-constructed parser', 5)
+    for name in SHIMS:
+        if name == 'get_token':
+            continue
+        f = w.functions['_pyltxenc2_LatexWalker_' + name]
+        ctor = [c for c in iter_own(f) if isinstance(c, ast.Call) and isinstance(c.func, ast.Attribute)
+                and unparse(c.func.value) == 'parsers']
+        if not ctor:
+            ctx.unknown('R16w', w, f, 'parser construction not found', construct=name + ': fixed parser options')
+            continue
+        c0 = ctor[0]
+        eff = {}
+        for k_ in c0.keywords:
+            if k_.arg is None or not isinstance(k_.value, ast.Constant):
+                continue
+            dflt = _ctor_default(repo, c0.func.attr, k_.arg)
+            if dflt is not None and isinstance(dflt, ast.Constant) and dflt.value == k_.value.value \
+                    and type(dflt.value) is type(k_.value.value):
+                continue
+            eff[k_.arg] = k_.value.value
+        want = SHIM_FIXED_OPTIONS[name]
+        extra = sorted(k_ for k_ in eff if k_ not in want or want[k_] != eff[k_])
+        missing = sorted(k_ for k_ in want if k_ not in eff and not any(kk.arg == k_ for kk in c0.keywords))
+        ctx.decide('R16w', not extra and not missing, w, c0,
+                   '%s(%s): fixed options as reviewed' % (c0.func.attr, ', '.join('%s=%r' % kv for kv in sorted(eff.items()))),
+                   'legacy %s builds %s with %s: the legacy call then accepts or returns something else than the parser it is '
+                   'documented to be equivalent to (for instance an optional argument after white space where '
+                   'LatexOptionalSquareBracketsParser() reports it absent and the documented result is None)'
+                   % (name, c0.func.attr, '; '.join(
+                       ['%s=%r, which is not a reviewed fixed option' % (k_, eff[k_]) for k_ in extra] +
+                       ['without the fixed option %s=%r' % (k_, want[k_]) for k_ in missing])),
+                   construct=name + ': fixed parser options')
+
+    # ---- R16x: one slot per declared argument
+    ctx.rule('R16x', 'MacroStandardArgsParser.parse_args: every turn of the loop over the argument letters appends exactly one '
+                     'entry to the argument list and the loop is never left early: the list has one slot per letter, like '
+                     'the one LatexArgumentsParser builds from the same letters', 1)
+    am = repo.mod(BASE)
+    pa_ = am.functions.get("MacroStandardArgsParser.parse_args")
+    lps_ = [l_ for l_ in iter_own(pa_) if isinstance(l_, ast.For) and 'argspec' in unparse(l_.iter)] if pa_ is not None else []
+    if not lps_:
+        ctx.unknown('R16x', am or w, pa_, 'loop over the argument letters not found', construct='parse_args: slots')
+    else:
+        lp_ = lps_[0]
+        lists_ = {unparse(call_recv(c_)) for c_ in iter_own(lp_) if isinstance(c_, ast.Call) and call_name(c_) == 'append'
+                  and call_recv(c_) is not None}
+        try:
+            xcs = symex.Walker(is_sink=lambda c_: call_name(c_) == 'append' and call_recv(c_) is not None
+                               and unparse(call_recv(c_)) in lists_, want_exits=True, want_raises=True, trace=True
+                               ).run_block(lp_.body)
+        except symex.TooManyPaths as e:
+            xcs = None
+            ctx.unknown('R16x', am, lp_, str(e), construct='parse_args: slots')
+        if xcs is not None:
+            badx = None
+            n_paths = 0
+            for cs in xcs:
+                if cs.kind not in ('end', 'continue', 'break', 'return'):
+                    continue
+                n_paths += 1
+                napp = len([1 for nd_, sub_ in cs.env.get('#trace', ()) if call_name(sub_) == 'append'])
+                if (cs.kind in ('break', 'return') or napp != 1) and badx is None:
+                    badx = (cs, napp)
+            ctx.decide('R16x', badx is None and n_paths > 0, am, (badx[0].node if badx and badx[0].node is not None else lp_),
+                       '%d path(s) through one turn of the loop: each appends one slot and goes on' % n_paths,
+                       'parse_args: on the path [%s] a turn of the loop over the argument letters %s: the argument list gets '
+                       'fewer or more entries than the specification has letters (a macro declared `*[{` called at the very '
+                       'end of the input gets one slot), unlike the list the new arguments parser builds'
+                       % (' & '.join(badx[0].cond_src())[-140:] if badx else '',
+                          ('ends the loop (%s)' % badx[0].kind) if badx and badx[0].kind in ('break', 'return')
+                          else ('appends %d entries' % (badx[1] if badx else 0))),
+                       construct='parse_args: slots')
+
     return 'other', (
         'Decides the wiring of the backward-compatible entry points onto the new parser objects: '
         'which parser each one builds, that every option is live and forwarded, that stop options '
@@ -1199,3 +1288,27 @@ def shim_state_derivation(ctx, rule, w):
                                                         ' & '.join(bad.cond_src())[-100:] if bad else ''),
                    construct=shim + ': state derivation')
     return n
+
+
+def _ctor_default(repo, clsname, kw, depth=0):
+    """default value (AST) of constructor parameter `kw` of class `clsname`, following **kwargs up the bases"""
+    if depth > 6:
+        return None
+    c = repo.find_class(clsname)
+    if c is None:
+        return None
+    init = [m for m in c.body if isinstance(m, ast.FunctionDef) and m.name == '__init__']
+    if init:
+        a = init[0].args
+        pos = a.args[1:]
+        d = dict(zip([x.arg for x in pos][len(pos) - len(a.defaults):], a.defaults)) if a.defaults else {}
+        d.update({x.arg: dv for x, dv in zip(a.kwonlyargs, a.kw_defaults) if dv is not None})
+        if kw in d:
+            return d[kw]
+        if kw in [x.arg for x in pos] or a.kwarg is None:
+            return None
+    for b in repo.bases_of(c):
+        r = _ctor_default(repo, b, kw, depth + 1)
+        if r is not None:
+            return r
+    return None
